@@ -6,7 +6,7 @@ import sys, os, json
 sys.path.insert(0, '/verif/lib')
 
 OPS = {'f_ser_flags': 1, 'f_ser_plain': 2, 'f_de_flags': 3, 'f_de_plain': 4,
-       'sw_ser': 5, 'sw_de': 6, 'te_ser': 7, 'te_de': 8}
+       'sw_ser': 5, 'sw_de': 6, 'te_ser': 7, 'te_de': 8, 'f_cmp': 9}
 
 CFG = json.load(open(os.path.join(os.path.dirname(os.path.abspath(__file__)), 'configs.json')))
 FIELDS = {int(k): {'p': v['p'], 'N': v['N'], 'towers': {int(t): d for t, d in v['towers'].items()}}
@@ -191,11 +191,53 @@ def gen_fields(rng, scale):
                     yield 'f_de_flags', [field_head(fid, ft, 0), [p], [1], bs], 'dec/extra_byte_exhaustive/ft%d' % ft
 
 
+def gen_cmp(rng, scale):
+    """the ordering the point codecs use for the sign flag, on every tower: Ord::cmp, PartialOrd::partial_cmp
+    and the four operators must agree.  Pairs are correlated: y against -y with the high coordinates zero
+    (prime subfield, intermediate subfields), equal high coordinates with one lower coordinate different,
+    equal elements, neighbours, dense."""
+    for fid in sorted(FIELDS):
+        f = FIELDS[fid]
+        p = f['p']
+        for tw, deg in sorted(f['towers'].items()):
+            reps = (3 if deg == 1 else 6) * scale
+            for kind in ('neg_low', 'neg_one', 'same_high', 'equal', 'neighbour', 'dense'):
+                for _ in range(reps):
+                    x = [fval(rng, p)[0] for _ in range(deg)]
+                    k = rng.randrange(1, deg + 1)              # number of low coordinates that may be non-zero
+                    if kind == 'neg_low':                      # y vs -y, top deg-k coordinates zero
+                        x = x[:k] + [0] * (deg - k)
+                        if x[k - 1] == 0:
+                            x[k - 1] = rng.randrange(1, p)
+                        y = [(-c) % p for c in x]
+                    elif kind == 'neg_one':                    # a single non-zero coordinate
+                        x = [0] * deg
+                        x[k - 1] = rng.choice([1, p - 1, (p - 1) // 2, (p + 1) // 2, rng.randrange(1, p)])
+                        y = [(-c) % p for c in x]
+                    elif kind == 'same_high':                  # arbitrary equal high part, the deciding coordinate is k-1
+                        y = list(x)
+                        y[k - 1] = fval(rng, p)[0]
+                        for i in range(k - 1):
+                            y[i] = fval(rng, p)[0]
+                    elif kind == 'equal':
+                        y = list(x)
+                    elif kind == 'neighbour':
+                        y = list(x)
+                        y[k - 1] = (y[k - 1] + rng.choice([1, -1])) % p
+                    else:
+                        y = [rng.randrange(p) for _ in range(deg)]
+                    if rng.randrange(2):
+                        x, y = y, x
+                    yield 'f_cmp', [field_head(fid, 0, 0), [p], [tw], x, y], 'cmp/tw%d/%s' % (tw, kind)
+
+
 # ---------------------------------------------------------------------------------------
 # curve points (generator side only: k*G, special points, representatives)
 class Fld:
+    """Fp (int), Fp[u]/(u^2 - nr) (pair), Fp[u]/(u^3 - nr) (triple)"""
     def __init__(self, p, deg, nr):
         self.p, self.deg, self.nr = p, deg, (nr[0] if nr else 0)
+        self.q = p ** deg
 
     def el(self, c):
         return c[0] if self.deg == 1 else tuple(c)
@@ -204,43 +246,137 @@ class Fld:
         return [x] if self.deg == 1 else list(x)
 
     def zero(self):
-        return 0 if self.deg == 1 else (0, 0)
+        return 0 if self.deg == 1 else (0,) * self.deg
 
     def one(self):
-        return 1 if self.deg == 1 else (1, 0)
+        return 1 if self.deg == 1 else (1,) + (0,) * (self.deg - 1)
 
     def add(self, a, b):
         p = self.p
-        return (a + b) % p if self.deg == 1 else ((a[0] + b[0]) % p, (a[1] + b[1]) % p)
+        return (a + b) % p if self.deg == 1 else tuple((x + y) % p for x, y in zip(a, b))
 
     def sub(self, a, b):
         p = self.p
-        return (a - b) % p if self.deg == 1 else ((a[0] - b[0]) % p, (a[1] - b[1]) % p)
+        return (a - b) % p if self.deg == 1 else tuple((x - y) % p for x, y in zip(a, b))
 
     def neg(self, a):
         return self.sub(self.zero(), a)
 
     def mul(self, a, b):
-        p = self.p
+        p, nr = self.p, self.nr
         if self.deg == 1:
             return a * b % p
-        return ((a[0] * b[0] + self.nr * a[1] * b[1]) % p, (a[0] * b[1] + a[1] * b[0]) % p)
+        if self.deg == 2:
+            return ((a[0] * b[0] + nr * a[1] * b[1]) % p, (a[0] * b[1] + a[1] * b[0]) % p)
+        return ((a[0] * b[0] + nr * (a[1] * b[2] + a[2] * b[1])) % p,
+                (a[0] * b[1] + a[1] * b[0] + nr * a[2] * b[2]) % p,
+                (a[0] * b[2] + a[1] * b[1] + a[2] * b[0]) % p)
 
     def inv(self, a):
-        p = self.p
+        p, nr = self.p, self.nr
         if self.deg == 1:
             return pow(a, p - 2, p)
-        n = pow((a[0] * a[0] - self.nr * a[1] * a[1]) % p, p - 2, p)
-        return (a[0] * n % p, (-a[1]) * n % p)
+        if self.deg == 2:
+            n = pow((a[0] * a[0] - nr * a[1] * a[1]) % p, p - 2, p)
+            return (a[0] * n % p, (-a[1]) * n % p)
+        t0 = (a[0] * a[0] - nr * a[1] * a[2]) % p
+        t1 = (nr * a[2] * a[2] - a[0] * a[1]) % p
+        t2 = (a[1] * a[1] - a[0] * a[2]) % p
+        n = pow((a[0] * t0 + nr * (a[2] * t1 + a[1] * t2)) % p, p - 2, p)
+        return (t0 * n % p, t1 * n % p, t2 * n % p)
 
     def small(self, k):
-        return k % self.p if self.deg == 1 else (k % self.p, 0)
+        return k % self.p if self.deg == 1 else (k % self.p,) + (0,) * (self.deg - 1)
 
     def rand(self, rng):
-        return rng.randrange(self.p) if self.deg == 1 else (rng.randrange(self.p), rng.randrange(self.p))
+        return rng.randrange(self.p) if self.deg == 1 else tuple(rng.randrange(self.p) for _ in range(self.deg))
 
     def key(self, a):            # Ord: last coordinate first
-        return a if self.deg == 1 else (a[1], a[0])
+        return a if self.deg == 1 else tuple(reversed(a))
+
+
+# ---- polynomials of small degree over a Fld (coefficient lists, low to high): roots of the cubic
+# x^3 + a x + (b - y^2), used to put a point on the curve *under a prescribed y* (generator side only)
+def p_trim(F, f):
+    f = list(f)
+    while f and f[-1] == F.zero():
+        f.pop()
+    return f
+
+
+def p_sub(F, f, g):
+    n = max(len(f), len(g))
+    z = F.zero()
+    return p_trim(F, [F.sub(f[i] if i < len(f) else z, g[i] if i < len(g) else z) for i in range(n)])
+
+
+def p_mul(F, f, g):
+    if not f or not g:
+        return []
+    r = [F.zero()] * (len(f) + len(g) - 1)
+    for i, x in enumerate(f):
+        for j, y in enumerate(g):
+            r[i + j] = F.add(r[i + j], F.mul(x, y))
+    return p_trim(F, r)
+
+
+def p_divmod(F, f, g):
+    """g monic"""
+    f = list(f)
+    q = [F.zero()] * max(0, len(f) - len(g) + 1)
+    for i in range(len(f) - len(g), -1, -1):
+        c = f[i + len(g) - 1]
+        q[i] = c
+        if c != F.zero():
+            for j, y in enumerate(g):
+                f[i + j] = F.sub(f[i + j], F.mul(c, y))
+    return p_trim(F, q), p_trim(F, f[:len(g) - 1])
+
+
+def p_monic(F, f):
+    if not f:
+        return f
+    c = F.inv(f[-1])
+    return [F.mul(x, c) for x in f]
+
+
+def p_gcd(F, f, g):
+    f, g = p_monic(F, p_trim(F, f)), p_monic(F, p_trim(F, g))
+    while g:
+        f, g = g, p_monic(F, p_divmod(F, f, g)[1])
+    return f
+
+
+def p_powmod(F, b, e, m):
+    r = [F.one()]
+    b = p_divmod(F, b, m)[1]
+    for bit in bin(e)[2:]:
+        r = p_divmod(F, p_mul(F, r, r), m)[1]
+        if bit == '1':
+            r = p_divmod(F, p_mul(F, r, b), m)[1]
+    return r
+
+
+def p_roots(F, f, rng):
+    """all roots in F of f (Cantor-Zassenhaus, odd characteristic)"""
+    f = p_monic(F, p_trim(F, f))
+    X = [F.zero(), F.one()]
+    g = p_gcd(F, f, p_sub(F, p_powmod(F, X, F.q, f), X))
+    out, todo = [], [g]
+    while todo:
+        g = todo.pop()
+        if len(g) <= 1:
+            continue
+        if len(g) == 2:
+            out.append(F.neg(g[0]))
+            continue
+        h = p_powmod(F, [F.rand(rng), F.one()], (F.q - 1) // 2, g)
+        d = p_gcd(F, g, p_sub(F, h, [F.one()]))
+        if 1 < len(d) < len(g):
+            todo += [d, p_divmod(F, g, d)[0]]
+        else:
+            todo.append(g)
+    return out
 
 
 def sqrt_p(a, p):
@@ -401,6 +537,47 @@ def sw_points(E, rng, n):
                     T = E.add(T, T)
                 if found:
                     break
+    else:
+        pts += sw_points_sparse_y(E, rng, n)
+    return pts
+
+
+def sw_points_sparse_y(E, rng, n):
+    """Curves over Fp2 / Fp3: points whose y has vanishing coordinates, so that the comparison of y with -y
+    (sign flag `y <= -y`, root order `y < -y`) is decided by a *lower* coordinate: y in the prime subfield
+    (class y_in_subfield: y.c1 = 0 resp. y.c2 = y.c1 = 0), the other zero patterns, and the tie y = 0.
+    y is prescribed, x is a root of x^3 + a x + b - y^2 (exists for ~2/3 of the y); such points are
+    generally outside the prime-order subgroup (checked decoding must reject them, unchecked must round-trip)."""
+    F, p, deg = E.F, E.F.p, E.F.deg
+    pts = []
+
+    def solve(y, cl, both=True):
+        f = [F.sub(E.b, F.mul(y, y)), E.a, F.zero(), F.one()]
+        xs = p_roots(F, f, rng)
+        if not xs:
+            return False
+        x = rng.choice(xs)
+        assert E.rhs(x) == F.mul(y, y)
+        pts.append(((x, y), cl))
+        if both and y != F.zero():
+            pts.append(((x, F.neg(y)), cl))
+        return True
+
+    # the subfield: boundary values of the deciding coordinate first ((p-1)/2 and (p+1)/2 are opposite)
+    want = n + 1
+    cands = [(p - 1) // 2, 1, 2, 3, p - 2] + [rng.randrange(1, p) for _ in range(4 * want)]
+    for c0 in cands:
+        if want == 0:
+            break
+        if solve(F.el([c0] + [0] * (deg - 1)), 'y_in_subfield'):
+            want -= 1
+    # every other pattern of zero coordinates (a single non-zero higher coordinate, top coordinate zero, ...)
+    for mask in range(2, (1 << deg) - 1):
+        for _ in range(8):
+            y = F.el([rng.randrange(1, p) if (mask >> i) & 1 else 0 for i in range(deg)])
+            if solve(y, 'y_sparse/' + ''.join('x' if (mask >> i) & 1 else '0' for i in range(deg))):
+                break
+    solve(F.zero(), 'y=0')
     return pts
 
 
@@ -414,6 +591,13 @@ def te_points(E, rng, n):
     P0 = E.lift(0, rng)                           # y = 0: x^2 = 1/a
     if P0:
         pts.append((P0, 'te_y=0'))
+    if p < 1000:                                  # toy field: every point of the curve
+        for y in range(p):
+            P = E.lift(y, rng)
+            if P:
+                pts.append((P, 'all_points'))
+                if P[0]:
+                    pts.append((((-P[0]) % p, y), 'all_points'))
     for _ in range(n):
         P = E.lift(rng.randrange(p), rng)
         if P:
@@ -476,7 +660,7 @@ def mutate_point_bytes(rng, E, bs, comp):
 def gen_points(rng, scale):
     for cid in sorted(CURVES):
         c = CURVES[cid]
-        big = c['deg'] == 2 or c['p'].bit_length() > 300
+        big = c['deg'] >= 2 or c['p'].bit_length() > 300
         n = (2 if big else 4) * (1 if scale == 1 else 6)
         if c['kind'] == 'sw':
             E = SW(c)
@@ -512,9 +696,11 @@ def gen_points(rng, scale):
             E = TE(c)
             F = E.F
             pts = te_points(E, rng, n)
+            # base fields without a spare bit in the top byte: the x-sign flag needs an extra byte
+            pre = 'te_nospare/' if c['p'].bit_length() % 8 == 0 else ''
             for P, cl in pts:
                 for comp in (0, 1):
-                    yield 'te_ser', curve_args(cid, comp, 0, 0) + [F.co(P[0]), F.co(P[1])], 'ser/aff/' + cl
+                    yield 'te_ser', curve_args(cid, comp, 0, 0) + [F.co(P[0]), F.co(P[1])], pre + 'ser/aff/' + cl
                     for zc in ('z1', 'zrand', 'zsmall'):
                         lam = {'z1': F.one(), 'zrand': F.rand(rng), 'zsmall': F.small(rng.choice([2, 3, F.p - 1]))}[zc]
                         if lam == F.zero():
@@ -522,19 +708,29 @@ def gen_points(rng, scale):
                         X, Y, Z = F.mul(P[0], lam), F.mul(P[1], lam), lam
                         T = F.mul(F.mul(P[0], P[1]), lam)
                         yield 'te_ser', curve_args(cid, comp, 0, 1) + [F.co(X), F.co(Y), F.co(T), F.co(Z)], \
-                            'ser/proj/%s/%s' % (zc, cl)
+                            pre + 'ser/proj/%s/%s' % (zc, cl)
                     bs = E.enc(P, comp)
                     for val in (0, 1):
                         for proj in (0, 1):
-                            yield 'te_de', curve_args(cid, comp, val, proj) + [bs], 'de/valid/%s/c%dv%dp%d' % (cl, comp, val, proj)
+                            yield 'te_de', curve_args(cid, comp, val, proj) + [bs], pre + 'de/valid/%s/c%dv%dp%d' % (cl, comp, val, proj)
                     for _ in range(2 if scale == 1 else 5):
                         mb, mc = mutate_point_bytes(rng, E, bs, comp)
-                        yield 'te_de', curve_args(cid, comp, rng.randrange(2), rng.randrange(2)) + [mb], 'de/%s/c%d' % (mc, comp)
+                        yield 'te_de', curve_args(cid, comp, rng.randrange(2), rng.randrange(2)) + [mb], pre + 'de/%s/c%d' % (mc, comp)
+            if c['p'] < 256:
+                # toy field: every y byte x a set of flag bytes (only 0x00 / 0x80 are canonical)
+                for y in range(256):
+                    for last in (0, 0x80, 1, 0x40, 0xc0, 0x7f, 0xff):
+                        yield 'te_de', curve_args(cid, 1, rng.randrange(2), rng.randrange(2)) + [[y, last]], \
+                            pre + 'de/exhaustive8/last%02x' % last
+                    for x in (0, 1, rng.randrange(256)):
+                        yield 'te_de', curve_args(cid, 0, rng.randrange(2), rng.randrange(2)) + [[x, y]], \
+                            pre + 'de/exhaustive8/uncompressed'
 
 
 def gen(rng, tier):
     scale = 1 if tier == 'quick' else 12
     yield from gen_fields(rng, scale)
+    yield from gen_cmp(rng, scale)
     yield from gen_points(rng, scale)
 
 
